@@ -30,13 +30,14 @@ type reporter struct {
 	seen map[string]int
 }
 
-func (p *reporter) violation(sig, what string, w any) {
+func (p *reporter) violation(sig string, mk func() (what string, witness any)) {
 	p.mu.Lock()
 	n := p.seen[sig]
 	p.seen[sig]++
 	p.mu.Unlock()
 	p.r.Count("violations["+sig+"]", 1)
 	if n == 0 {
+		what, w := mk()
 		p.r.Violation(sig, what, w)
 	}
 }
@@ -159,13 +160,38 @@ type l1 struct {
 	prevEnts   []raftpb.Entry
 	prevShard  *shardSt
 	setup      string
+	cnt        map[string]int64
+	dst        map[string]map[string]struct{}
+}
+
+func (c *l1) count(name string, n int64) { c.cnt[name] += n }
+
+func (c *l1) distinct(set, elem string) {
+	m := c.dst[set]
+	if m == nil {
+		m = map[string]struct{}{}
+		c.dst[set] = m
+	}
+	m[elem] = struct{}{}
+}
+
+func (c *l1) flush() {
+	for k, v := range c.cnt {
+		c.r.Count(k, v)
+	}
+	for set, m := range c.dst {
+		for e := range m {
+			c.r.Distinct(set, e)
+		}
+	}
 }
 
 var cacheSizes = []int{1, 2, 3, 8, 100}
 
 func runL1(r *ev.Run, rep *reporter, id caseID) {
 	rnd := rand.New(rand.NewSource(id.Seed))
-	c := &l1{r: r, rep: rep, id: id, rnd: rnd}
+	c := &l1{r: r, rep: rep, id: id, rnd: rnd, cnt: map[string]int64{}, dst: map[string]map[string]struct{}{}}
+	defer c.flush()
 	c.cacheSize = cacheSizes[rnd.Intn(len(cacheSizes))]
 	c.q = &querier{logs: map[uint64]*slog{}}
 	c.sc = logreader.NewShardCache(c.cacheSize)
@@ -421,7 +447,7 @@ func (c *l1) pickStart(s *shardSt) uint64 {
 				a = int64(sh.Hi) - 1 + r.Int63n(4)
 			}
 		} else {
-			a = int64(first) + r.Int63n(int64(ap-first+2))
+			a = int64(first) + r.Int63n(int64(ap)+2-int64(first))
 		}
 	case 4:
 		a = int64(first) - 1 + r.Int63n(3)
@@ -455,7 +481,7 @@ func (c *l1) startStream(s *shardSt, a uint64) {
 	end := s.applied + 1
 	if a > end {
 		// LogServer.Replicate answers LEADER_BEHIND before it touches the reader.
-		c.r.Count("l1_requests_beyond_applied_plus_1", 1)
+		c.count("l1_requests_beyond_applied_plus_1", 1)
 		c.steps = append(c.steps, step{kind: "behind", shard: s.id, a: a, b: end})
 		return
 	}
@@ -520,13 +546,13 @@ func (c *l1) query(s *shardSt, a, b uint64) (int, bool) {
 	st := step{kind: "query", shard: s.id, a: a, b: b, shape: shape, c: sum(ce, cerr), s: sum(se, serr), reads: reads,
 		first: s.log.first(), last: s.log.last, stale: s.staleFirst, lagged: b != s.applied+1}
 	c.steps = append(c.steps, st)
-	c.r.Count("l1_queries", 1)
+	c.count("l1_queries", 1)
 	if s.compacted {
 		c.afterComp = true
-		c.r.Count("l1_queries_after_compaction", 1)
+		c.count("l1_queries_after_compaction", 1)
 	}
 	if st.lagged {
-		c.r.Count("l1_queries_with_older_range_end", 1)
+		c.count("l1_queries_with_older_range_end", 1)
 	}
 
 	okS := c.judge("uncached", s, a, b, se, serr, shape)
@@ -560,19 +586,19 @@ func (c *l1) query(s *shardSt, a, b uint64) (int, bool) {
 		}
 		switch {
 		case len(ce) == len(se):
-			c.r.Count("l1_cached_equals_uncached", 1)
+			c.count("l1_cached_equals_uncached", 1)
 		case len(ce) < len(se):
 			var cum uint64
 			for _, e := range ce {
 				cum += uint64(e.SizeUpperLimit())
 			}
 			if cum+uint64(se[len(ce)].SizeUpperLimit()) >= c.maxSize {
-				c.r.Count("l1_cached_shorter_at_size_cut", 1)
+				c.count("l1_cached_shorter_at_size_cut", 1)
 			} else {
-				c.r.Count("l1_cached_shorter_at_cache_boundary", 1)
+				c.count("l1_cached_shorter_at_cache_boundary", 1)
 			}
 		default:
-			c.r.Count("l1_cached_longer_than_uncached", 1)
+			c.count("l1_cached_longer_than_uncached", 1)
 		}
 		// how the cached answer was put together
 		if len(ce) > 0 {
@@ -589,17 +615,17 @@ func (c *l1) query(s *shardSt, a, b uint64) (int, bool) {
 			switch {
 			case part:
 				c.partial = true
-				c.r.Count("l1_answers_partly_cache_partly_log", 1)
+				c.count("l1_answers_partly_cache_partly_log", 1)
 				mb := 0
 				for m := c.maxSize; m > 0; m >>= 4 {
 					mb++
 				}
 				fmt.Fprintf(&c.key, "%d:%d:%d:%d:%d:%d|", int64(shape.Lo)-int64(s.log.first()), shape.N, int64(a)-int64(s.log.first()), b-a, mb, len(ce))
-				c.r.Distinct("l1_partial_shape", fmt.Sprintf("%d:%d:%d:%d", int64(shape.Lo)-int64(a), shape.N, b-a, len(ce)))
+				c.distinct("l1_partial_shape", fmt.Sprintf("%d:%d:%d:%d", int64(shape.Lo)-int64(a), shape.N, b-a, len(ce)))
 			case len(reads) == 0:
-				c.r.Count("l1_answers_from_cache_only", 1)
+				c.count("l1_answers_from_cache_only", 1)
 			default:
-				c.r.Count("l1_answers_from_log_only", 1)
+				c.count("l1_answers_from_log_only", 1)
 			}
 		}
 	}
@@ -610,8 +636,10 @@ func (c *l1) query(s *shardSt, a, b uint64) (int, bool) {
 }
 
 func (c *l1) fail(sig, what string, goOn bool) {
-	w := witness{Case: c.id, Setup: c.setup, Steps: c.render(0), At: c.steps[len(c.steps)-1].String()}
-	c.rep.violation(sig, what+" — "+w.At, w)
+	c.rep.violation(sig, func() (string, any) {
+		w := witness{Case: c.id, Setup: c.setup, Steps: c.render(0), At: c.steps[len(c.steps)-1].String()}
+		return what + " — " + w.At, w
+	})
 	if !goOn {
 		c.stop = true
 	}
@@ -622,7 +650,7 @@ func (c *l1) judge(kind string, s *shardSt, a, b uint64, es []raftpb.Entry, err 
 	log := s.log
 	cls := errClass(err)
 	if a == b {
-		c.r.Count("l1_empty_range_queries", 1)
+		c.count("l1_empty_range_queries", 1)
 		if err != nil || len(es) != 0 {
 			c.fail(kind+"-reader-answer-for-empty-range", fmt.Sprintf("range [%d,%d) is empty but the %s reader answered %v", a, b, kind, sum(es, err)), false)
 			return false
@@ -633,7 +661,7 @@ func (c *l1) judge(kind string, s *shardSt, a, b uint64, es []raftpb.Entry, err 
 	if a < first {
 		stale := kind == "cached" && a >= s.staleFirst
 		if cls == "ErrLogAhead" {
-			c.r.Count("l1_use_snapshot_answers", 1)
+			c.count("l1_use_snapshot_answers", 1)
 			return true
 		}
 		if !stale {
@@ -643,7 +671,7 @@ func (c *l1) judge(kind string, s *shardSt, a, b uint64, es []raftpb.Entry, err 
 		}
 		// the LogCompacted event for this compaction has not been delivered: production allows the
 		// cache to still serve the (unchanged) entries; they must be the right ones.
-		c.r.Count("l1_compacted_index_served_from_not_yet_invalidated_cache", 1)
+		c.count("l1_compacted_index_served_from_not_yet_invalidated_cache", 1)
 	}
 	if err != nil {
 		c.fail(kind+"-reader-"+strings.SplitN(cls, "(", 2)[0]+"-for-servable-range",
@@ -690,6 +718,6 @@ func (c *l1) judge(kind string, s *shardSt, a, b uint64, es []raftpb.Entry, err 
 			return false
 		}
 	}
-	c.r.Count("l1_entries_checked", int64(len(es)))
+	c.count("l1_entries_checked", int64(len(es)))
 	return true
 }
